@@ -87,7 +87,7 @@ func ReadBytesLen(rd io.Reader, maxLength int) (bytes []byte, err error) {
 		return
 	}
 	bytes = make([]byte, length)
-	_, err = rd.Read(bytes)
+	_, err = io.ReadFull(rd, bytes)
 	return
 }
 
@@ -210,7 +210,7 @@ func ReadUint8(reader io.Reader) (val uint8, err error) {
 		return br.ReadByte()
 	}
 	var protocol [1]byte
-	_, err = reader.Read(protocol[:1])
+	_, err = io.ReadFull(reader, protocol[:1])
 	val = protocol[0]
 	return
 }
@@ -227,7 +227,7 @@ func ReadInt16(reader io.Reader) (val int16, err error) {
 
 func ReadUint16(reader io.Reader) (val uint16, err error) {
 	var protocol [2]byte
-	_, err = reader.Read(protocol[:2])
+	_, err = io.ReadFull(reader, protocol[:2])
 	val = binary.BigEndian.Uint16(protocol[:2])
 	return
 }
@@ -264,7 +264,7 @@ func ReadInt(rd io.Reader) (int, error) {
 
 func ReadUint32(reader io.Reader) (val uint32, err error) {
 	var protocol [4]byte
-	_, err = reader.Read(protocol[:4])
+	_, err = io.ReadFull(reader, protocol[:4])
 	val = binary.BigEndian.Uint32(protocol[:4])
 	return
 }
@@ -277,7 +277,7 @@ func ReadInt64(reader io.Reader) (val int64, err error) {
 
 func ReadUint64(reader io.Reader) (val uint64, err error) {
 	var protocol [8]byte
-	_, err = reader.Read(protocol[:8])
+	_, err = io.ReadFull(reader, protocol[:8])
 	val = binary.BigEndian.Uint64(protocol[:8])
 	return
 }
@@ -330,7 +330,7 @@ func ReadBytes17(rd io.Reader) ([]byte, error) {
 	}
 
 	b := make([]byte, length)
-	_, err = rd.Read(b)
+	_, err = io.ReadFull(rd, b)
 	return b, err
 }
 
